@@ -32,14 +32,37 @@ COMPONENTS = {
              "market feed: simulator writes garbage / truth into instrument buffers", "user pricers for listed hedges"],
 }
 ASSUMPTIONS = ["bitwise comparison with the clean run (NaN == NaN)", "'empty' feature excluded", "CPU only"]
-PROBES = ["price_scale_not_one", "earlier_pass_aborted", "online_feed", "offline_vectorised", "offline_stepwise", "feature_single_step", "feature_all_steps",
+PROBES = ["half_precision_long_horizon", "price_scale_not_one", "earlier_pass_aborted", "online_feed", "offline_vectorised", "offline_stepwise", "feature_single_step", "feature_all_steps",
           "path_dependent_feature", "listed_hedge", "maturity_no_trade", "bs_model", "ww_model", "module_output",
           "fill_nan", "fill_rand", "fill_huge", "grad_enabled_run", "kept_feature_object"]
 FILLS = ["rand", "rand", "huge", "nan", "neg", "zero"]
 SOFT_FILLS = ("nan", "neg", "zero", "huge")
 
 
+def generate_half_long(rng):
+    """Round-6 miss C02-k: index arithmetic carried out in the instrument's dtype is exact in float32/float64 at every
+    realistic horizon, but not in half precision beyond 2**8 (bfloat16) / 2**11 (float16) time points.  A small share of
+    the programs therefore puts path statistics of a bfloat16 / float16 underlier on a grid of 280-320 points and runs
+    the offline future-corruption differential on single features there (no Black-Scholes kernels: those are not all
+    available in half precision)."""
+    hd = rng.choice(["bfloat16", "bfloat16", "float16"])
+    prim = gen_primary(rng, "p0", kinds=["BrownianStock", "TapePrimary"], dtypes=(hd,), dt=1 / 250, cost=0.0)
+    steps = rng.choice([280, 300, 320])
+    d = gen_derivative(rng, "d0", prim, kinds=["EuropeanOption", "LookbackOption", "AmericanBinaryOption"], steps=steps)
+    d["params"]["maturity"] = steps / 250
+    world = {"primaries": [prim], "derivatives": [d], "models": [], "criteria": [], "hedgers": []}
+    ops = [{"op": "simulate", "target": "d0", "n_paths": rng.choice([1, 2, 3]), "torch_seed": rng.seed31()}]
+    for _ in range(rng.randint(2, 4)):
+        f = rng.choice(["max_moneyness", "max_log_moneyness", "max_moneyness", "moneyness", "log_moneyness", "underlier_spot",
+                        gen_barrier(rng)])
+        ops.append({"op": "feature", "feature": f, "derivative": "d0", "t_star": rng.randint(250, steps - 1),
+                    "fill": rng.choice(["rand", "huge"]), "seed": rng.seed31()})
+    return {"profile": "c02", "env": {"default_dtype": "float32"}, "world": world, "ops": ops, "init": None, "half_long": True}
+
+
 def generate(rng):
+    if rng.chance(0.05):
+        return generate_half_long(rng)
     prim = gen_primary(rng, "p0", kinds=STOCK_KINDS + ["TapePrimary"], dtypes=(None, None, "float32", "float64"))
     pkind = prim["kind"]
     steps = rng.nsteps([1, 2, 3, 4, 5, 6, 8, 11])
@@ -120,6 +143,8 @@ def _execute(program, stats, hist):
     INIT = tuple(program["init"]) if program.get("init") else None
     if INIT is not None:
         stats.probe("price_scale_not_one")
+    if program.get("half_long"):
+        stats.probe("half_precision_long_horizon")
     torch.set_default_dtype(DT[program["env"].get("default_dtype", "float32")])
     try:
         world = World(program["world"])
